@@ -1770,7 +1770,7 @@ pub fn gen_adversarial(s: &Solo, r: &mut Rng) -> Vec<u8> {
             p.client_id = r.pick(&["", "cid", "x"]).to_string();
             p.clean = r.chance(1, 2);
             p.keep_alive = *r.pick(&[0u16, 1, 65535]);
-            p.level = *r.pick(&[0u8, 0, 0, 3, 4, 5, 6]);
+            p.level = *r.pick(&[0u8, 0, 0, 3, 4, 5, 6, 0x84, 0x85]);
             if v == 5 {
                 for _ in 0..r.below(4) {
                     p.props.push(match r.below(6) {
